@@ -158,8 +158,9 @@ def exp_fitting_with_const_log(
             "The order cannot be larger than the number of len(x_data) -1. "
         )
 
-    linear_param = Polynomial.fit(x_data, y_data, 1).convert().coef[1]
-    sign = np.sign(linear_param)
+    # The sign of b is the side of the asymptote the data lie on (the slope of
+    # the data only has that sign for growing |f - constant|).
+    sign = np.sign(sum(value - constant for value in y_data))
 
     regular_eps = 1.0e-8
     shifted_value = [max(abs(value - constant), regular_eps) for value in y_data]
